@@ -1572,6 +1572,20 @@ impl<T: Transport, Env: UtpEnvironment> VirtualSocket<T, Env> {
                 self.transition_to_fin_wait_1();
             }
 
+            // The application is gone but data is still queued (e.g. the peer's window is closed).
+            // Nobody is left to notice a stall, so don't wait for the peer forever.
+            if self.user_rx.is_reader_dropped()
+                && self.user_tx.is_writer_dropped()
+                && !self.state.is_local_fin_or_later()
+            {
+                self.timers.remote_inactivity_timer.arm(
+                    self.this_poll.now,
+                    self.socket_opts.remote_inactivity_timeout,
+                    false,
+                    "application is gone, data still queued",
+                );
+            }
+
             // (Re)send a pending FIN if needed.
             pending_if_cannot_send!(self.maybe_send_fin(cx).map(|_| ()));
 
